@@ -86,7 +86,7 @@ def end_to_end(ctx, stg, n):
         r.stg(stg, ["init"])
         names = ["p0", "5", "abc123", "-1", "p+1", "0"]
         for nm in names:
-            p = r.stg(stg, ["new", "-m", "m " + nm, "--", nm] if not nm.startswith("-") else ["new", "-m", "m", "--", "\\" + nm])
+            p = r.stg(stg, ["new", "-m", "m " + nm, nm if not nm.startswith("-") else "\\" + nm])
             if p.returncode != 0:
                 problems.append({"argv": ["new", nm], "exit": p.returncode, "stderr": p.stderr[-300:]})
         r.stg(stg, ["pop", "-n", "2"])
